@@ -516,6 +516,10 @@ func gen(g *fw.Gen) {
 		g.Emit("toint", fw.Pack(fw.U64(g.Rng.Uint64()), []byte{byte(g.Rng.Intn(5))}))
 	}
 	for n := g.ShareOf(20000, 1000000); n > 0; n-- {
+		if g.Rng.Intn(8) == 0 {
+			g.Emit("score", fw.Pack(g.Bytes(8+g.Rng.Intn(6000))))
+			continue
+		}
 		g.Emit("score", fw.Pack(g.Bytes(8+g.Rng.Intn(300))))
 	}
 	for n := g.ShareOf(64, 3000); n > 0; n-- {
@@ -524,6 +528,9 @@ func gen(g *fw.Gen) {
 	// API level
 	for n := g.ShareOf(250, 12000); n > 0; n-- {
 		l := g.Rng.Intn(120)
+		if g.Rng.Intn(10) == 0 {
+			l = 120 + g.Rng.Intn(1400)
+		}
 		lx := 8 + g.Rng.Intn(2500)
 		if g.Rng.Intn(3) == 0 {
 			// around powers of three
